@@ -126,6 +126,9 @@ pub fn render_doc(d: &Doc) -> (String, BTreeMap<String, usize>) {
             lines.push(format!("# Document {}", d.path));
             lines.push("".into());
             for (k, t) in d.tests.iter().enumerate() {
+                if k == 1 && d.pad_lines > 0 {
+                    lines.extend(std::iter::repeat(String::new()).take(d.pad_lines));
+                }
                 lines.push(format!("## {}", t.title));
                 lines.push("".into());
                 let c = cfg_flow(&t.cfg);
